@@ -74,17 +74,23 @@ def scanSearch {V} (A : Automaton σ) (lo hi : Bound) : Bool → Nat → Assoc V
     else if A.accepts e.1 then (ord, e.1, e.2) :: scanSearch A lo hi true (ord + 1) rest
     else scanSearch A lo hi true (ord + 1) rest
 
-/-- blocks read by an automaton search. mirrors: get_block_iterator_for_range_and_automaton
-(`V3Empty`: the single pseudo block, unfiltered) -/
+/-- block id of the lower bound (`unwrap_or(u64::MAX)` = nothing is read), 0 if unbounded -/
+def Dict.lowerBlock {V} (d : Dict V) (lo : Bound) : Option Nat :=
+  match lo.key? with | some k => d.locateKey k | none => some 0
+
+/-- blocks kept by the separator walk (`V3Empty`: the single pseudo block, unfiltered) -/
+def Dict.candidates {V} (d : Dict V) (A : Automaton σ) : List (Nat × Block V) :=
+  if d.single then [(0, d.blocks.headD ⟨[], 0, []⟩)] else keptBlocks A none 0 d.blocks
+
+/-- `block_range.contains(block_id)` with `block_range = lower ..= upper` -/
+def inBlockRange {V} (l : Nat) (upper : Option Nat) (p : Nat × Block V) : Bool :=
+  decide (l ≤ p.1) && (match upper with | some u => decide (p.1 ≤ u) | none => true)
+
+/-- blocks read by an automaton search. mirrors: get_block_iterator_for_range_and_automaton -/
 def Dict.searchBlocks {V} (d : Dict V) (A : Automaton σ) (lo hi : Bound) : List (Block V) :=
-  let lower : Option Nat := match lo.key? with | some k => d.locateKey k | none => some 0
-  let upper : Option Nat := match hi.key? with | some k => d.locateKey k | none => none
-  match lower with
+  match d.lowerBlock lo with
   | none => []                                     -- unwrap_or(u64::MAX) ..= _ is empty
-  | some l =>
-    let cand : List (Nat × Block V) :=
-      if d.single then [(0, d.blocks.headD ⟨[], 0, []⟩)] else keptBlocks A none 0 d.blocks
-    (cand.filter (fun p => decide (l ≤ p.1) && (match upper with | some u => decide (p.1 ≤ u) | none => true))).map (·.2)
+  | some l => ((d.candidates A).filter (inBlockRange l (d.lastKeyBlock hi))).map (·.2)
 
 /-- mirrors: Dictionary::search(A).{ge,gt,le,lt}.into_stream() when `A` is not
 `will_always_match` at the start -/
